@@ -195,12 +195,12 @@ pub fn run(ctx: &Ctx, rep: &mut Report) {
     }
     // far beyond the protocol maximum (std / alloc only): texts of hundreds to thousands of
     // characters with runs of identical padding characters whose lengths sit at and next to
-    // every power of two up to 8192 (block sizes, 8/16-bit counters), leading / after one letter /
+    // every power of two up to 131 072 (block sizes, 8/16-bit counters), leading / after one letter /
     // trailing / before one letter, with little or much other text around
     if !noalloc {
         let mut idx2 = 0u64;
         let mut runs: Vec<usize> = vec![600, 1000, 3000];
-        for p in 6..=13u32 {
+        for p in 6..=17u32 {
             let q = 1usize << p;
             runs.extend_from_slice(&[q - 1, q, q + 1]);
         }
